@@ -28,12 +28,15 @@ def check(ctx, recs):
                 ctx.violation("state %d: final strategy %r is not within the reachability strategy %r" % (i, final[i], reachs[i]), r.inp())
             if pr is None:
                 continue
-            vals = [round(rew[d], 6) for _, d in pr[i]]
+            # the actions still permitted: for Player 1 the ones kept by conditioning; Player 2 keeps EVERY action of the
+            # description (unless the whole state was dropped as unreachable), whatever the solver's own list says
+            row = pr[i] if (k == P1 or pr[i] == []) else [tuple(t) for t in g["transition_list"][i]]
+            vals = [round(rew[d], 6) for _, d in row]
             if k == P1:
                 best = max([0] + vals)
             else:
                 best = min(vals) if vals else None
-            exp = [a for (a, _), v in zip(pr[i], vals) if v == best]
+            exp = [a for (a, _), v in zip(row, vals) if v == best]
             if final[i] != exp:
                 ctx.violation("state %d (%s): final strategy %r, optimal remaining actions w.r.t. reported rewards %r" % (i, k, final[i], exp),
                               r.inp(), rewards=rew, pruned=str(pr))
@@ -81,8 +84,10 @@ def run(ctx):
             extra.append((g2, dict(m, style="stopping", guard="any")))
     games += extra
     games += reward_tie_grids(ctx)
+    games += gen_games.extra_families(ctx.rng, games, 12 if ctx.quick else 150)
     recs = sc.run_games(ctx, games, limit=10, tag="c05")
     sc.correspondence(ctx, recs, "cmp_final", "c05")
+    sc.padding_check(ctx, recs, ("final",), 40 if ctx.quick else 400, "c05")
     check(ctx, recs)
 
 
